@@ -78,6 +78,14 @@ fn link_sequences(link: u8, len: usize, stave: bool) -> Vec<Seq> {
         b[last].packet.rdh.detector_field |= 1 << 13;
     }
     v.push(Seq { name: format!("link{link}-bad-id+rdh-sanity"), packets: b });
+    // header-only packets (memory size = offset to next = 64): stepped over without any payload to skip when another
+    // link is selected by a filter
+    let mut h = clean.clone();
+    for p in h.iter_mut() {
+        p.packet = fp_model::stream::Packet::framed(p.packet.rdh.clone(), Vec::new());
+        p.words.clear();
+    }
+    v.push(Seq { name: format!("link{link}-header-only"), packets: h });
     v
 }
 
@@ -321,6 +329,13 @@ pub fn run(tier: Tier) -> i32 {
                 let mut c = vec![0; sh.len()];
                 c[l] = 1 + l % 2;
                 combos.push(c);
+            }
+            // one link made of header-only packets beside corrupted ones (three links: the header-only packet is then
+            // also the second of two stepped-over packets for some filter)
+            if !stave {
+                let mut c = vec![1; sh.len()];
+                c[sh.len() - 1] = 3;
+                combos.insert(1, c);
             }
             for (ci, combo) in combos.iter().enumerate() {
                 if !tier.is_thorough() && mode != Mode::AllIts && ci > 1 {
